@@ -49,6 +49,19 @@ func (r *Report) ReturnsOnly(id string, fn *ssa.Function, idx int, allowNil bool
 			return true
 		case *ssa.Extract:
 			return ok(x.Tuple, depth+1)
+		case *ssa.UnOp:
+			if x.Op == token.MUL {
+				sts := storesTo(x.X)
+				if len(sts) == 0 {
+					return false
+				}
+				for _, st := range sts {
+					if !ok(st.Val, depth+1) {
+						return false
+					}
+				}
+				return true
+			}
 		}
 		return false
 	}
